@@ -8,15 +8,15 @@ V = os.path.dirname(os.path.abspath(__file__))
 CHECKS = {
  "C02": ("exploration",
   "model-Redis monitor: entries from the real loader restored through utils.RestoreRdbEntry into an executable model target; whole target database compared with the expected one after every call",
-  "6000/120000 cells of kind x physical encoding x element count {1,2,99,100,101,250} x key_exists x pre-existing key {none,same type,other type} x target.version (fetched or typed, with the big_key_threshold/TargetReplace pairing SanitizeOptions produces) x threshold around the payload size x expiry {none,future,past} x shift {0,+-1h} x hash-tag replacement x idle/freq, plus real 36 MiB chunked hashes; values by logical equality, TTL by a load-independent interval, returned error and process survival checked; floors per route (plain, big-key, quicklist, fallback, chunked).",
+  "6000/1000000 cells of kind x physical encoding x element count {1,2,99,100,101,250} x key_exists x pre-existing key {none,same type,other type} x target.version (fetched or typed, with the big_key_threshold/TargetReplace pairing SanitizeOptions produces) x threshold around the payload size x expiry {none,future,past} x shift {0,+-1h} x hash-tag replacement x idle/freq, plus 4/24 real 36 MiB chunked hashes (three chunks); values by logical equality, TTL by a load-independent interval, returned error and process survival checked; floors per route (plain, big-key, quicklist, fallback, chunked).",
   "Trusted: lib/miniredis RESTORE semantics (BUSYKEY before payload check, 'Bad data format' for types unknown to the target version, REPLACE from 3.0) and lib/refrdb. Cluster targets and ucloud key stripping are out of reach.", "DESIGN.md §5/C02"),
  "C01": ("exploration",
   "generator-by-construction oracle: RDB files whose expected record list and exact payload bytes are emitted by the same walk as the bytes; real loader output compared record by record; child processes, Go race detector on the loader goroutine/channel",
-  "3000 (quick) / 60000 (thorough) generated RDB files covering every value type and physical encoding (all ziplist entry encodings, intset widths, zipmap, quicklist, LZF with overlapping back-references, int strings, streams with groups/PEL/consumers), every length form, versions 1-9, s/ms expiry, idle/freq, aux/lua/resize/module-aux (every sub-opcode) between keys and alternating SELECTDB are parsed by rdb.NewLoader (a tenth through a 1..7-byte dribbling reader) and by utils.NewRDBLoader; each record's db/key/type/expiry/idle/freq and the byte-exact checksummed payload are compared with the generator's expectation; 2/8 files with hashes above the 16 MiB chunk limit check chunk concatenation, trailers, expiry on every chunk and the neighbours. Coverage floors per encoding and metadata kind.",
+  "3000 (quick) / 240000 (thorough) generated RDB files covering every value type and physical encoding (all ziplist entry encodings, intset widths, zipmap, quicklist, LZF with overlapping and far (> 256 bytes, deliberately sought through a trigram index) back-references in values, key names and Lua scripts of up to 1 KB, int strings, streams with groups/PEL/consumers), every length form, versions 1-9, s/ms expiry, idle/freq, aux/lua/resize/module-aux (every sub-opcode) between keys and alternating SELECTDB are parsed by rdb.NewLoader (a tenth through a 1..7-byte dribbling reader) and by utils.NewRDBLoader; each record's db/key/type/expiry/idle/freq and the byte-exact checksummed payload are compared with the generator's expectation; 2/8 files with hashes above the 16 MiB chunk limit check chunk concatenation, trailers, expiry on every chunk and the neighbours. Coverage floors per encoding and metadata kind.",
   "Trusted: lib/rdbgen (self-tested against the independent decoder lib/refrdb on every run). Zipmap item lengths >= 253 and checksum-less (rdbchecksum no / version < 5) files are not generated.", "DESIGN.md §5/C01"),
  "C09": ("exploration",
   "runtime monitor: scripted operation programs vs a byte-FIFO model with goroutine-state (sync.Cond.Wait) inspection for block/wake; free-running writer/reader under the Go race detector with a stream-prefix/drain oracle",
-  "Thousands of seeded programs of Write/Read/Buffered/Available/Close (chunks 0,1,cap-1,cap,cap+1,2cap+3; close at any step by either side; mem 4-12 KiB and file 4-8 MiB pipes) are executed one operation at a time; a FIFO model predicts 'result or blocks' and the parked/woken state of the real goroutine is read from runtime.Stack, so lost wake-ups and spurious blocking are decided without timers; data is position-coded. Free-running concurrent runs add interleavings under -race (any race report in pipe code is a violation).",
+  "Thousands of seeded programs of Write/Read/Buffered/Available/Close (chunks 0,1,cap-1,cap,cap+1,2cap+3; close at any step by either side; mem 4-12 KiB and file 4-8 MiB pipes) are executed one operation at a time; a FIFO model predicts 'result or blocks' and the parked/woken state of the real goroutine is read from runtime.Stack, so lost wake-ups and spurious blocking are decided without timers; data is position-coded. Free-running concurrent runs add interleavings under -race (any race report in pipe code is a violation). 2400/120000 scripted memory programs, 24/720 file-backed.",
   "Trusted: the 60-line FIFO model; runtime.Stack state names. One writer + one reader goroutine as the property states.", "DESIGN.md §5/C09"),
  "C10": ("exploration",
   "reference-codec monitor: strict independent RESP codec classifies every generated value, stream and single-point mutant; tool result compared value-for-value and byte-for-byte (offset)",
@@ -24,15 +24,15 @@ CHECKS = {
   "Trusted: lib/refresp (strict RESP + the two documented leniencies). Lenient numeric forms (+5, 007) and huge lengths are skipped and counted.", "DESIGN.md §5/C10"),
  "C11": ("fault_enumeration",
   "fault enumeration, exhaustive per artefact: every single-byte substitution (255 values) at every position and every truncation of generated RDB files and of DUMP payloads emitted by the tool, run through the real verifiers; digests compared with a bitwise CRC-64/Jones reference",
-  "digest.New, the in-repo and the module crc64 are compared with a bitwise CRC-64/Jones over random strings and chunkings (1-byte, empty writes, Reset). For 16/160 generated RDB files (<=300 bytes, header versions 1-9) every position x 255 substitutes and every truncation must make Header..Footer fail and the intact file must verify; for 32/320 payloads produced by the loader every position x 255 substitutes, every truncation and every length 0..9 must be rejected by rdb.DecodeDump and CheckVersionChecksum, intact ones accepted with the reference CRC, and versions above the supported one with a recomputed valid CRC rejected. Exhaustive per artefact (about 0.5M RDB mutants and 1M payload checks in quick).",
+  "digest.New, the in-repo and the module crc64 are compared with a bitwise CRC-64/Jones over random strings and chunkings (1-byte, empty writes, Reset). For 16/480 generated RDB files (<=300 bytes, header versions 1-9) every position x 255 substitutes and every truncation must make Header..Footer fail and the intact file must verify, from a contiguous source and in five split deliveries (1-byte, 1/2/3/7, halves, small bufio over short reads); for 32/960 payloads produced by the loader every position x 255 substitutes, every truncation and every length 0..9 must be rejected by rdb.DecodeDump and CheckVersionChecksum, intact ones accepted with the reference CRC, and versions above the supported one with a recomputed valid CRC rejected. Exhaustive per artefact (about 0.5M RDB mutants and 1M payload checks in quick). Concurrent stage: 24/600 groups of 2-16 loaders parse their own intact files at the same time (half of them from a socket-like source); every emitted payload trailer must be the CRC-64 of its own bytes and every end-of-file check must pass.",
   "Trusted: lib/refcrc. RDB artefacts carry no aux/module-aux items (a corrupted aux length makes the loader copy gigabytes per mutant); a process crash on a corrupted artefact counts as rejection and is reported.", "DESIGN.md §5/C11"),
  "C12": ("exploration",
   "generator-by-construction oracle + round-trip monitor: logical values -> EncodeDump -> DecodeDump; rdbgen compact encodings -> real loader -> ObjEntry compared with the known logical value; NewEncoder files -> loader",
-  "(a) DecodeDump(EncodeDump(v)) == v with element order and bit-exact scores for strings at every int8/16/32 boundary (+ '-0', '+1', '007', ' 1'...), lengths at 63/64/16383/16384, 10k/200k scores over special and random float64 bit patterns, random values; each payload is also decoded by the independent reference; (b) every physical encoding (16 labels, coverage floor each) generated from a known logical value is parsed by the real loader and decoded through BinEntry.ObjEntry, then re-encoded; (c) rdb.NewEncoder files of (db,key,expiry,object) sequences are loaded back and the footer verified; the in-repo cupcake Encoder/Decoder pair.",
+  "(a) DecodeDump(EncodeDump(v)) == v with element order and bit-exact scores for strings at every int8/16/32 boundary (+ '-0', '+1', '007', ' 1'...), lengths at 63/64/16383/16384, 10k/200k scores over special and random float64 bit patterns, random values; each payload is also decoded by the independent reference; (a2) 60/1200 batches of 40 payloads held while the later ones are serialised (EncodeDump and ObjEntry.BinEntry) and 8 goroutines serialising at the same time - every payload keeps its bytes and its value; (b) every physical encoding (16 labels, coverage floor each) generated from a known logical value is parsed by the real loader and decoded through BinEntry.ObjEntry, then re-encoded; (c) rdb.NewEncoder files of (db,key,expiry,object) sequences are loaded back and the footer verified; the in-repo cupcake Encoder/Decoder pair.",
   "Trusted: lib/rdbgen + lib/refrdb (self-tested each run). Zipmap item lengths < 253 only.", "DESIGN.md §5/C12"),
  "C13": ("exploration",
-  "reference-model monitor: literal statement over an independent Redis key-spec table, exhaustive to a key-count bound",
-  "Every command of the tool table x every valid arity up to 4 (quick) / 6 (thorough) keys x all 2^n pass/fail patterns x whitelist/blacklist is rewritten by the real filter and compared argv-for-argv with the literal statement evaluated over an independently typed key-spec table; plus checkpoint keys, commands outside the table, no-filter identity. Exhaustive to the bound.",
+  "reference-model monitor: literal statement over an independent Redis key-spec table, exhaustive to a key-count bound; plus the real incremental parser+sender (hook VerifRunIncr) on concurrent streams against a model target",
+  "Every command of the tool table x every valid arity up to 4 (quick) / 6 (thorough) keys x all 2^n pass/fail patterns x whitelist/blacklist is rewritten by the real filter and compared argv-for-argv with the literal statement evaluated over an independently typed key-spec table; plus checkpoint keys, commands outside the table, no-filter identity. Exhaustive to the bound. Stream stage (the second observation point): 18/360 streams of 1500 random draws of the same cases (<= 3 keys, any letter case) interleaved with SELECT/PING/PUBLISH/FLUSHDB/commands outside the table (each also right after a dropped command) go through the real incremental parser and sender, three parser/sender pairs at a time; the sequence of (database, command, argv) executed by the model target must equal the reference pipeline's.",
   "Trusted: the reference key-spec table (Redis first/last/step) and that pass/fail is controlled by key prefix only.", "DESIGN.md §5/C13"),
  "C17": ("exploration",
   "generator-by-construction oracle over the real decode command: output file parsed and compared as a multiset with the generator's element list, for parallel 1..64, in child processes under the Go race detector",
@@ -40,7 +40,7 @@ CHECKS = {
   "Trusted: lib/rdbgen. Script lines are counted, not compared (the tool prints them unencoded).", "DESIGN.md §5/C17"),
  "C18": ("exploration",
   "runtime monitor: scripted programs vs exact offset model with goroutine-state inspection (up to 3 simultaneous waiters); concurrent histories recorded at the API boundary and checked for linearizability with porcupine; interval oracle for ring-crossing writes; Go race detector",
-  "Seeded programs of Write/ReadAt/WaitAt/DataRange/NewReader/SeekTo/IsValid/Reader.Read/Close run against the model {wpos, capacity, closed} with position-coded content, offsets aimed at both validity edges (wpos-cap-1..+1, wpos..+1), totals up to dozens of laps; waiting and wake-up of every parked reader are read from goroutine states. 150/1500 concurrent histories (1 writer, 2-4 readers) are checked with porcupine v1.3.0 (60 s timeout => inconclusive); ring-crossing writes under an interval oracle; any -race report in backlog code is a violation.",
+  "Seeded programs of Write/ReadAt/WaitAt/DataRange/NewReader/SeekTo/IsValid/Reader.Read/Close run against the model {wpos, capacity, closed} with position-coded content, offsets aimed at both validity edges (wpos-cap-1..+1, wpos..+1), totals up to dozens of laps; waiting and wake-up of every parked reader are read from goroutine states. 150/6000 concurrent histories (1 writer, 2-4 readers) are checked with porcupine v1.3.0 (60 s timeout => inconclusive); ring-crossing writes under an interval oracle; 45k/1.8M rounds of 9 concurrent writers (one with payloads that straddle the ring end) whose self-describing payloads must each be contiguous in the log; any -race report in backlog code is a violation.",
   "Trusted: the offset model (30 lines) and porcupine. DataRange after Close is not asserted (statement is silent).", "DESIGN.md §5/C18"),
  "C14": ("exploration",
   "reference-model monitor over a loopback model target: generated checkpoint states -> real checkpoint.LoadCheckpoint -> return values and keyspace afterwards compared with a reference 'newest own checkpoint' function",
@@ -48,7 +48,7 @@ CHECKS = {
   "Trusted: the 30-line reference and lib/miniredis (INFO keyspace, HGETALL, HDEL). Equal offsets in two databases are not generated.", "DESIGN.md §5/C14"),
  "C15": ("exploration",
   "reference-model monitor: spec-derived slot function and bitwise CRC16 run against every enumerated/random key; result re-hashing for chosen checkpoint keys",
-  "Every string over {'{','}',a,b} up to length 8 (quick) / 10 (thorough) plus 60k/600k random binary keys go through KeyToSlot and are compared with a slot function typed from the Cluster specification; all three CRC16 copies are compared with a bitwise CRC16/XMODEM; every ChoseSlotInRange / findKeyInRange result is re-hashed by the reference and must land in range and be excluded by FilterKey (thorough: all 16384 singleton ranges). Exhaustive to the stated bound, sampled beyond it.",
+  "Every string over {'{','}',a,b} up to length 8 (quick) / 10 (thorough) plus 60k/600k random binary keys go through KeyToSlot and are compared with a slot function typed from the Cluster specification; all three CRC16 copies are compared with a bitwise CRC16/XMODEM; every ChoseSlotInRange / findKeyInRange result is re-hashed by the reference and must land in range and be excluded by FilterKey (thorough: all 16384 singleton ranges); the ranges asked of one process include families related by their decimal digits ([1,112]/[11,12]), by a shared boundary or by width. Exhaustive to the stated bound, sampled beyond it.",
   "Trusted: the 25-line reference (check values and the spec's three hash-tag examples are re-verified on every run).", "DESIGN.md §5/C15"),
 }
 
@@ -59,31 +59,31 @@ CHECKS["C20"] = ("fault_enumeration",
 
 CHECKS["C07"] = ("exploration",
   "schedule-controlling model target: loopback model Redis whose scheduler decides which worker connection's pending command is applied next; exactly-once / right-database / completion-at-return / failure-reported oracles over the per-connection command log; Go race detector",
-  "144/2400 runs of the real syncRDBFile (hook) and CmdRestore.Main over generated RDBs (50-400 keys over 1-6 databases with SELECTDB alternating between consecutive keys, lua scripts in between) with parallel in {1,2,3,8,32}, target.db in {-1,2}, key/db black/white lists and five scheduler policies (random, round-robin, starve-one, newest/oldest-first); at the moment the call returns every expected (db,key) must have been restored exactly once in the right database with the source value, nothing may arrive later, scripts are loaded once each; one run in six injects an error reply or BUSYKEY on a chosen key and the run must report it (returned error / non-successful process end). Evidence counts distinct interleaving signatures and the maximum number of simultaneously pending connections. One scenario per run holds the first chunk's DEL of a 36 MiB hash back (recorded known finding).",
+  "144/9600 runs of the real syncRDBFile (hook) and CmdRestore.Main over generated RDBs (50-400 keys over 1-6 databases with SELECTDB alternating between consecutive keys, lua scripts in between) with parallel in {1,2,3,8,32}, target.db in {-1,2}, key/db black/white lists and five scheduler policies (random, round-robin, starve-one, newest/oldest-first); at the moment the call returns every expected (db,key) must have been restored exactly once in the right database with the source value, nothing may arrive later, scripts are loaded once each; one run in six injects an error reply or BUSYKEY on a chosen key and the run must report it (returned error / non-successful process end). Evidence counts distinct interleaving signatures and the maximum number of simultaneously pending connections. One scenario per run holds the first chunk's DEL of a 36 MiB hash back (recorded known finding).",
   "Trusted: lib/miniredis and its scheduler (the settle time only shapes interleavings; no verdict depends on it). One RESTORE per key (no quicklists, threshold above every payload).", "DESIGN.md §5/C07")
 
 CHECKS["C05"] = ("exploration",
   "byte-stream monitor: scripted master with chosen framing and TCP fragmentation, position-coded payloads, byte-for-byte comparison of what leaves the pipe / lands in the dump file; link drop and resume observed at the master; Go race detector",
-  "180/3000 hand-offs through the real sendPSyncCmd (hook), the dump path (hook) and utils.Iocopy: 0-5 keep-alive newlines before the reply and before '$n', +FULLRESYNC/+CONTINUE in three letter cases, RDB sizes 1 B .. 34 MiB incl. 8191/8192/8193 and 65535/65536/65537, stream 1 B .. 200 KB, fragmentation plans (all at once, 1-byte dribble, odd sizes, 8 KiB+-1, 1-byte writes across the '$n' header and across the RDB/stream boundary, random) x reader pacing (fast, slow, bursty); pipe content = rdb||stream exactly, returned run id / start offset / size = announced, dump file = the n RDB bytes and the reader's leftover = beginning of the stream; every fourth psync case kills the link after half of the stream and requires PSYNC <announced id> <start+received+1> and a seamless continuation.",
+  "180/6000 hand-offs through the real sendPSyncCmd (hook), the dump path (hook) and utils.Iocopy: 0-5 keep-alive newlines before the reply and before '$n', +FULLRESYNC/+CONTINUE in three letter cases, RDB sizes 1 B .. 34 MiB incl. 8191/8192/8193 and 65535/65536/65537, stream 1 B .. 200 KB, fragmentation plans (all at once, 1-byte dribble, odd sizes, 8 KiB+-1, 1-byte writes across the '$n' header and across the RDB/stream boundary, random) x reader pacing (fast, slow, bursty); pipe content = rdb||stream exactly, returned run id / start offset / size = announced, dump file = the n RDB bytes (every second dump overwrites an older, longer file at the same path) and the reader's leftover = beginning of the stream; every fourth psync case kills the link after half of the stream and requires PSYNC <announced id> <start+received+1> and a seamless continuation.",
   "Trusted: lib/fakesource. TLS and the dead SYNC path of sync mode are out of reach.", "DESIGN.md §5/C05")
 
 CHECKS["C03"] = ("exploration",
   "reference-pipeline monitor: generated master streams fed with chosen arrival timing through the real incremental path (end to end via DbSyncer.Sync against a scripted master and a loopback model target, and parser+sender pair on an in-process connection recording Send/Flush boundaries); applied command sequence compared with a reference filter pipeline; Go race detector",
-  "640/9600 streams of 1-400 commands from a master grammar (SELECT switches incl. re-selects and the configured target.db, writes in any letter case, PING, MULTI..EXEC, sentinel hellos, EVAL/SCRIPT/EVALSHA, opinfo, keep-alive newlines) under 16/64 configurations (db/key white/black lists, filter.lua, target.db, resume, sender.count x sender.size) and arrival plans (all at once, 1 command/ms, arbitrary byte splits, groups 480..520 ms or 1.2 s apart); the data commands applied at the target (bookkeeping stripped, no foreign MULTI/EXEC) must equal the reference in order, arguments and database, exactly once, within 5 s of the last byte. Evidence counts observed batch partitions (>20k flushes) and the worst flush latency.",
+  "640/9600 streams of 1-400 commands from a master grammar (SELECT switches incl. re-selects, SELECT inside transactions and the configured target.db, writes in any letter case incl. argument-less FLUSHDB/FLUSHALL, PING, MULTI..EXEC, sentinel hellos, EVAL/SCRIPT/EVALSHA, opinfo, keep-alive newlines) under 16/64 configurations (db/key white/black lists, filter.lua, target.db, resume, sender.count x sender.size) and arrival plans (all at once, 1 command/ms, arbitrary byte splits, groups 480..520 ms or 1.2 s apart); the data commands applied at the target (bookkeeping stripped, no foreign MULTI/EXEC) must equal the reference in order, arguments and database, exactly once, within 5 s of the last byte. Evidence counts observed batch partitions (>20k flushes) and the worst flush latency.",
   "Trusted: lib/reffilter, lib/miniredis, lib/fakesource. 'All timings' is sampled; PINGs are not compared; cluster targets out of reach.", "DESIGN.md §5/C03")
 
 CHECKS["C04"] = ("fault_enumeration",
   "crash-point enumeration over a recorded history: the byte stream the model target received in an uninterrupted resume-enabled end-to-end run is cut at every command boundary and at every byte of a sample of commands, each prefix replayed into a model Redis with MULTI/EXEC semantics and compared with the reference source history up to the stored checkpoint offset; real restarts from sampled cut states; Go race detector",
-  "16/192 histories (multi-database streams with transactions, pings, filtered commands, non-idempotent INCR/APPEND/RPUSH; sender.count {1,2,5,1024}; arrival plans that let the 500 ms ticker split batches; db/key filters) give >16k (quick) cut states: for each, the newest stored checkpoint must carry the announced run id and version, an offset that is exactly the end of a forwarded command, sit in the database that command ran in, and the data must equal the reference history up to that offset (or the post-full-sync state when no checkpoint exists yet). From 88/2000+ distinct checkpoints a real DbSyncer is restarted on that state against a master honouring PSYNC <id> <offset+1>: it must send exactly that PSYNC and end with the uninterrupted run's dataset (nothing lost, nothing applied twice).",
+  "16/576 histories (every second one with the source link breaking once mid-stream and the tool re-attaching with PSYNC/CONTINUE; multi-database streams with transactions, pings, filtered commands, non-idempotent INCR/APPEND/RPUSH; sender.count {1,2,5,1024}; arrival plans that let the 500 ms ticker split batches; db/key filters) give >16k (quick) cut states: for each, the newest stored checkpoint must carry the announced run id and version, an offset that is exactly the end of a forwarded command, sit in the database that command ran in, and the data must equal the reference history up to that offset (or the post-full-sync state when no checkpoint exists yet). From 88/6000+ distinct checkpoints a real DbSyncer is restarted on that state against a master honouring PSYNC <id> <offset+1>: it must send exactly that PSYNC and end with the uninterrupted run's dataset (nothing lost, nothing applied twice).",
   "Trusted: lib/miniredis MULTI/EXEC + disconnect semantics, reference history via lib/reffilter. A cut after byte k and 'the target ignores everything after byte k' are the same event for the target; partial application inside one command is not a Redis behaviour.", "DESIGN.md §5/C04")
 CHECKS["C08"] = ("fault_enumeration",
   "history monitor at the master: every REPLCONF ACK and PSYNC is recorded with the number of stream bytes written by then; inequalities valid for any tick phase, equality after a quiet period; link drops enumerated over position classes; final dataset compared with the reference history",
-  "48/384 end-to-end histories of 6-12 s wall-clock (several 1 s ack ticks): start offsets {0,1,2^31-5,2^40} x traffic plans (early burst then idle, burst-idle-burst, steady trickle) x drop plans (none, at a command boundary, inside a command, one byte after a boundary, twice, while idle) x resume on/off. Every ACK <= start+written and non-decreasing; after 2.7 s of silence ACK == start+total; every reconnect sends PSYNC <announced id> <start+received+1>; the final target equals the reference history (a lost or repeated byte changes INCR/APPEND/RPUSH results); with resume on every stored checkpoint offset is the end of a forwarded command.",
+  "64/2304 end-to-end histories of 6-12 s wall-clock (several 1 s ack ticks): start offsets {0,1,2^31-5,2^40} x traffic plans (early burst then idle, burst-idle-burst, steady trickle, traffic during a slowed full phase) x drop plans (none, at a command boundary, inside a command, one byte after a boundary, twice, while idle) x resume on/off. Every ACK <= start+written and non-decreasing; after 2.7 s of silence ACK == start+total; every reconnect sends PSYNC <announced id> <start+received+1>; the final target equals the reference history (a lost or repeated byte changes INCR/APPEND/RPUSH results); with resume on every stored checkpoint offset is the end of a forwarded command.",
   "Trusted: lib/fakesource bookkeeping (drops are graceful closes, so written == received). Timing enters only through the 2.7 s quiet period (>= 2 ticks).", "DESIGN.md §5/C08")
 
 CHECKS["C06"] = ("exploration",
   "reference-predicate monitor plus cross-path agreement: the same generated keyspace pushed through full sync, restore mode, rump and the incremental path under the same configuration against model peers; arrival sets compared with a reference filter and pairwise",
-  "(a) 200k/2M x 4 predicate evaluations (FilterKey, FilterDB, FilterSlot, FilterCommands) against lib/reffilter on keys built from the listed prefixes truncated/extended by one byte, hash tags, checkpoint-key variants and random bytes, database numbers incl. string-prefix neighbours (1 vs 10), command names in any letter case, under random list configurations. (b) 11/88 configuration runs (none, key black/white list, db black/white list, slot list, filter.lua, combinations, a whitelist covering the checkpoint prefix) x 4 data paths on one keyspace of ~80 keys over 4 databases with 2 Lua scripts: the set of (db,key) reaching the model target must equal the reference per path (slot list only in sync's full phase; checkpoint keys never via sync/restore, never via any path once a key filter exists), the same decision for the same key in every path, Lua scripts and script commands present exactly when filter.lua is off, opinfo never forwarded.",
+  "(a) 200k/8M x 4 predicate evaluations (FilterKey, FilterDB, FilterSlot, FilterCommands) against lib/reffilter on keys built from the listed prefixes truncated/extended by one byte, hash tags, checkpoint-key variants and random bytes, database numbers incl. string-prefix neighbours (1 vs 10), command names in any letter case, under random list configurations. (b) 16/384 configuration runs (none, key black/white list, db black/white list, slot list, filter.lua, combinations, each also with target.db, a whitelist covering the checkpoint prefix) x 4 data paths (the incremental path as 13 stream orders - every ordered pair of leading databases - with one key in three travelling in a multi-key MSET) on one keyspace of ~80 keys over 4 databases with 2 Lua scripts: the set of (db,key) reaching the model target must equal the reference per path (slot list only in sync's full phase; checkpoint keys never via sync/restore, never via any path once a key filter exists), the same decision for the same key in every path, Lua scripts and script commands present exactly when filter.lua is off, opinfo never forwarded.",
   "Trusted: lib/reffilter, lib/miniredis. In the incremental path key decisions exist only for commands of the tool's table.", "DESIGN.md §5/C06")
 CHECKS["C16"] = ("exploration",
   "model-peer monitor: the real CmdRump.Main against scripted model sources (SCAN pagination, vanishing keys, DUMP payloads in every encoding, PTTL) and a model target; final target keyspace compared with the expectation; termination observed",
